@@ -12,7 +12,8 @@ cases
 Monotonicity on binary64 (what the judge demands of the real float64 results).  STRICT increase of Tm
 in each concentration is a fact about the formula over the reals (Props/C19: tm_mono_oligo/na/mg).  In
 binary64 two conditions a few ulp apart give the same Tm (ties), so for every pair of in-range
-conditions P ≤ P' (coordinate-wise, P ≠ P') of the same oligo (length ≥ 2) the judge demands
+conditions P ≤ P' (coordinate-wise, P ≠ P') of the same oligo (length ≥ 2) — in a grid case: every two
+points on a common axis line, neighbours or not; in a pt case: its two conditions — the judge demands
   * WEAK monotonicity always:            Tm(P) ≤ Tm(P')   (a decrease is a failure at any separation);
   * STRICT increase above the resolution: Tm(P) < Tm(P') whenever sep(P,P') ≥ `resolution` = 1e-9, where
       sep = max( (C'-C)/C , (S'-S)/S ),  S = Na + 140 Mg  (the two arguments of the logarithms).
@@ -261,13 +262,16 @@ def judgeGrid (s : String) (cl nal mgl : List Float) (out : List String) : Verdi
       let naa := nal.toArray
       let mga := mgl.toArray
       let cond (i j k : Nat) : Cond := (ca[i]?.getD 0, naa[j]?.getD 0, mga[k]?.getD 0)
-      -- every pair of axis-adjacent grid points: weak monotonicity always, strict above the resolution
+      -- every pair of grid points on a common axis line (all i < j, not only neighbours: strictness above the
+      -- resolution is not transitive, so a chain of sub-resolution ties must be closed end to end):
+      -- weak monotonicity always, strict above the resolution
+      let later (i n : Nat) : List Nat := (idx n).filter (· > i)
       let pairs : List (Bool × Bool × Float) :=
         if b.length < 2 || !okLen then [] else
         (idx cl.length).flatMap fun i => (idx nN).flatMap fun j => (idx nM).flatMap fun k =>
-          ((if i + 1 < cl.length then [monoPair (cond i j k) (cond (i+1) j k) (pick i j k) (pick (i+1) j k)] else []) ++
-           (if j + 1 < nN then [monoPair (cond i j k) (cond i (j+1) k) (pick i j k) (pick i (j+1) k)] else []) ++
-           (if k + 1 < nM then [monoPair (cond i j k) (cond i j (k+1)) (pick i j k) (pick i j (k+1))] else [])).filterMap id
+          (((later i cl.length).map fun i' => monoPair (cond i j k) (cond i' j k) (pick i j k) (pick i' j k)) ++
+           ((later j nN).map fun j' => monoPair (cond i j k) (cond i j' k) (pick i j k) (pick i j' k)) ++
+           ((later k nM).map fun k' => monoPair (cond i j k) (cond i j k') (pick i j k) (pick i j k'))).filterMap id
       let mono := (b.length < 2 || okLen) && pairs.all (·.1)
       let anyTie := pairs.any (·.2.1)
       let minSep := pairs.foldl (fun m p => if p.2.2 < m then p.2.2 else m) 1e300
@@ -327,7 +331,10 @@ def judgeMt (s : String) (out : List String) : Verdict :=
           cls := (if b.length < 2 then "triv:" else "") ++ "mt/" ++ seqClass b,
           detail := if corr && dflt && md then "" else why ++ detail ++ s!" spec: Tm={Spec.NN.tmF b 500e-9 50e-3 0} MD={Spec.NN.marmurDoty b}" }
       | none => { corr, judge := none, cls := "mt/non-acgt", detail := if corr then "" else detail }
-    | _, _, _ => { corr := false, judge := none, cls := "mt/malformed-reply", detail }
+    -- an unreadable inner field on an in-domain case is a FAILURE (mt cases are the only judge of the
+    -- default-helper and Marmur–Doty clauses), not a skip
+    | _, _, _ => { corr := false, judge := if (Spec.NN.basesOf? cs).isSome && !cs.isEmpty then some false else none,
+                   cls := "mt/malformed-reply", detail := "unreadable reply field; " ++ detail }
   | _ => { corr := false, judge := if (Spec.NN.basesOf? cs).isSome && !cs.isEmpty then some false else none,
            cls := "mt/malformed-reply", detail }
 
